@@ -1,3 +1,286 @@
 package main
 
-func run8(f []string) (string, bool) { return "", false }
+import (
+	"bytes"
+	"fmt"
+	"net/url"
+	"reflect"
+	"runtime"
+	"sort"
+	"strings"
+	"sync"
+	"sync/atomic"
+
+	"github.com/ja7ad/otp"
+)
+
+// ---- C11: concurrent histories ----
+// conc <goroutines> <gomaxprocs> <rounds> <adversary 0/1> x<hex of newline-separated case lines>
+// Every sub-case is run by every goroutine, `rounds` times, in a per-goroutine rotation of the list,
+// while (optionally) an adversary goroutine takes buffers from the library's two pools, overwrites
+// them and puts them back, and another one forces garbage collections.  The answer is the list of
+// sub-case results (each must be the same in every goroutine and round, and results retained from
+// the first round must still read the same at the end).
+func doConc(f []string) string {
+	g, p, rounds, adv := int(u64(f[1])), int(u64(f[2])), int(u64(f[3])), f[4] == "1"
+	lines := strings.Split(string(unhx(f[5])), "\n")
+	defer runtime.GOMAXPROCS(runtime.GOMAXPROCS(p))
+	first := make([]string, len(lines))
+	for i, l := range lines {
+		first[i] = run(l)
+	}
+	retained := append([]string(nil), first...) // the very strings returned above
+	copies := make([]string, len(first))
+	for i, s := range first {
+		copies[i] = string(append([]byte(nil), s...))
+	}
+	var stop atomic.Bool
+	var bg sync.WaitGroup
+	if adv {
+		p4, p6 := otp.VerifPools()
+		bg.Add(2)
+		go func() {
+			defer bg.Done()
+			for !stop.Load() {
+				if b, ok := p4.Get().(*[8]byte); ok && b != nil {
+					for i := range b {
+						b[i] = 0xEE
+					}
+					runtime.Gosched()
+					for i := range b {
+						b[i] ^= 0x55
+					}
+					p4.Put(b)
+				}
+				if b, ok := p6.Get().(*[]byte); ok && b != nil {
+					s := (*b)[:cap(*b)]
+					for i := range s {
+						s[i] = 0xDD
+					}
+					*b = s[:len(s)/2] // a length the library did not leave there
+					runtime.Gosched()
+					p6.Put(b)
+				}
+			}
+		}()
+		go func() {
+			defer bg.Done()
+			for !stop.Load() {
+				runtime.GC()
+				runtime.Gosched()
+			}
+		}()
+	}
+	var bad atomic.Value
+	var wg sync.WaitGroup
+	for w := 0; w < g; w++ {
+		wg.Add(1)
+		go func(w int) {
+			defer wg.Done()
+			for r := 0; r < rounds; r++ {
+				for k := range lines {
+					i := (k + w*7 + r) % len(lines)
+					if got := run(lines[i]); got != copies[i] {
+						bad.CompareAndSwap(nil, fmt.Sprintf("goroutine %d round %d: %s => %s, alone it answers %s", w, r, lines[i], got, copies[i]))
+						return
+					}
+				}
+			}
+		}(w)
+	}
+	wg.Wait()
+	stop.Store(true)
+	bg.Wait()
+	if b := bad.Load(); b != nil {
+		return "bad:" + b.(string)
+	}
+	for i := range retained {
+		if retained[i] != copies[i] {
+			return fmt.Sprintf("bad:a result returned earlier changed afterwards: %s => now %q, was %q", lines[i], retained[i], copies[i])
+		}
+	}
+	return strings.Join(copies, ";")
+}
+
+// ---- C12: caller data and package state are not modified ----
+type guarded struct {
+	arr      []byte // the whole backing array
+	off, n   int    // the slice presented to the library is arr[off:off+n] with capacity c
+	c        int
+	snapshot []byte
+}
+
+// present b as a sub-slice of a larger, canary-filled array with spare capacity
+func guard(b []byte, layout int) ([]byte, *guarded) {
+	if b == nil {
+		return nil, nil
+	}
+	front, spare := 0, 0
+	switch layout % 6 {
+	case 0: // exact
+	case 1:
+		spare = 1
+	case 2:
+		spare = 8 - len(b)%8
+	case 3:
+		spare = 128
+	case 4:
+		front, spare = 16, 200
+	case 5:
+		front, spare = 3, 128-len(b)%128
+	}
+	if spare < 0 {
+		spare = 0
+	}
+	arr := make([]byte, front+len(b)+spare+16)
+	for i := range arr {
+		arr[i] = 0xC0 + byte(i%31)
+	}
+	copy(arr[front:], b)
+	g := &guarded{arr: arr, off: front, n: len(b), c: len(b) + spare}
+	g.snapshot = append([]byte(nil), arr...)
+	return arr[front : front+len(b) : front+len(b)+spare], g
+}
+func (g *guarded) dirty() bool { return g != nil && !bytes.Equal(g.arr, g.snapshot) }
+
+type pkgState struct {
+	hotp, totp otp.Param
+	suites     string
+}
+
+func snapshotPkg() pkgState {
+	reg := otp.VerifKnownSuites()
+	names := make([]string, 0, len(reg))
+	for k, v := range reg {
+		names = append(names, fmt.Sprintf("%s=%+v", k, v))
+	}
+	sort.Strings(names)
+	return pkgState{*otp.DefaultHOTPParam, *otp.DefaultTOTPParam, strings.Join(names, "|")}
+}
+
+// canary <layout> <inner case...>: the inner operation on guarded copies of its arguments
+func doCanary(f []string) string {
+	layout := int(u64(f[1]))
+	inner := f[2:]
+	before := snapshotPkg()
+	var guards []*guarded
+	var out string
+	dirty := ""
+	gd := func(b []byte, k int) []byte {
+		s, g := guard(b, layout+k)
+		guards = append(guards, g)
+		return s
+	}
+	switch inner[0] {
+	case "gocra", "vocra", "d6287", "gocra_raw":
+		si, ii := 2, 3
+		if inner[0] == "vocra" {
+			si, ii = 3, 4
+		}
+		c := parseSuite(inner[si])
+		c0 := c
+		in := parseInput(inner[ii])
+		in.Counter, in.Challenge, in.Password, in.SessionInfo, in.Timestamp = gd(in.Counter, 0), gd(in.Challenge, 1), gd(in.Password, 2), gd(in.SessionInfo, 3), gd(in.Timestamp, 4)
+		in0 := in
+		switch inner[0] {
+		case "gocra":
+			out = strOrErr(otp.GenerateOCRA(string(unhx(inner[1])), c, in))
+		case "gocra_raw":
+			out = strOrErr(otp.GenerateOCRA(string(unhx(inner[1])), otp.RawSuite{SuiteConfig: c}, in))
+		case "vocra":
+			out = verdict(otp.ValidateOCRA(string(unhx(inner[1])), string(unhx(inner[2])), c, in))
+		case "d6287":
+			key, g := guard(unhx(inner[1]), layout+5)
+			guards = append(guards, g)
+			out = strOrErr(otp.VerifDeriveRFC6287(key, c, in))
+		}
+		if !reflect.DeepEqual(c, c0) {
+			dirty = "suite configuration changed"
+		}
+		if len(in.Counter) != len(in0.Counter) || len(in.Challenge) != len(in0.Challenge) {
+			dirty = "input struct changed"
+		}
+	case "ghotp", "vhotp", "gtotp", "vtotp":
+		pi := 3
+		if inner[0][0] == 'v' {
+			pi = 4
+		}
+		p := parseParam(inner[pi])
+		var p0 otp.Param
+		if p != nil {
+			p0 = *p
+		}
+		switch inner[0] {
+		case "ghotp":
+			out = strOrErr(otp.GenerateHOTP(string(unhx(inner[1])), u64(inner[2]), p))
+		case "vhotp":
+			out = verdict(otp.ValidateHOTP(string(unhx(inner[1])), string(unhx(inner[2])), u64(inner[3]), p))
+		case "gtotp":
+			out = strOrErr(otp.GenerateTOTP(string(unhx(inner[1])), parseTime(inner[2]), p))
+		case "vtotp":
+			out = verdict(otp.ValidateTOTP(string(unhx(inner[1])), string(unhx(inner[2])), parseTime(inner[3]), p))
+		}
+		if p != nil && *p != p0 {
+			dirty = "parameter struct changed"
+		}
+	case "d4226":
+		key := gd(unhx(inner[1]), 0)
+		out = strOrErr(otp.VerifDeriveRFC4226(key, u64(inner[2]), int(i64(inner[3])), otp.Algorithm(u64(inner[4]))))
+	case "padb":
+		in := gd(unhx(inner[1]), 0)
+		res := otp.VerifPadBytes(in, int(i64(inner[2])))
+		out = okBytes(res)
+		// the result may be a view of the input (>= width) but must not have written anything
+	case "purl":
+		u := parseURLFields(inner[1])
+		var u0 url.URL
+		if u != nil {
+			u0 = *u
+		}
+		p, err := otp.ParseOTPAuthURL(u)
+		if err != nil {
+			out = errOut(err)
+		} else {
+			out = fmtURLParam(p)
+		}
+		if u != nil && !reflect.DeepEqual(*u, u0) {
+			dirty = "parsed URL changed"
+		}
+	case "gurl":
+		up := parseURLParam(inner[2:])
+		up0 := up
+		u, err := genURL(inner[1], up)
+		if err != nil {
+			out = errOut(err)
+		} else {
+			out = "url:" + fmtURL(u) + "|" + hxs(u.String())
+		}
+		if up != up0 {
+			dirty = "URL parameters changed"
+		}
+	default:
+		out = run(strings.Join(inner, " "))
+	}
+	for i, g := range guards {
+		if g.dirty() {
+			dirty = fmt.Sprintf("backing array of argument %d was written", i)
+		}
+	}
+	if after := snapshotPkg(); after != before {
+		dirty = "package defaults or the suite registry changed"
+	}
+	if dirty != "" {
+		return out + "|mem:dirty:" + dirty
+	}
+	return out + "|mem:clean"
+}
+
+func run8(f []string) (string, bool) {
+	switch f[0] {
+	case "conc":
+		return doConc(f), true
+	case "canary":
+		return doCanary(f), true
+	}
+	return run9(f)
+}
